@@ -49,9 +49,11 @@ PROPS["C01"] = {
     "rule": ("Scenario = 1-3 keys + op list (request with park mask / complete with outcome / advance clock / release parked / purge), drawn by rapid incl. directed "
              "macros (burst, expiry between wake-up and resumption, waiter parked between registering and waiting, several epochs). Non-trivial = at least one "
              "request waited on a fetch AND (a woken waiter was parked across an expiry/refetch/purge, OR a waiter was parked at get.registered when its fetch ended, OR >=2 expiry epochs). "
-             "Distinct by canonical scenario JSON."),
-    "assumptions": _SIM_ASSUME,
-    "jobs": [_sim("TestC01", 1500, 40000)],
+             "Distinct by canonical scenario JSON. TestC01ColdBurst (real goroutines, no controlled schedule): 100-400 bursts of 2-32 goroutines released by a barrier on a cold key, each doing what the cache middleware does "
+             "(get-or-create the entry, Get, the elected fetcher stores a response): exactly one fetcher, one shared entry, N-1 answered from it. evaluations counts bursts."),
+    "assumptions": _SIM_ASSUME + ["the get-or-create of the entry in the dispatcher has no yield point; it is exercised statistically by TestC01ColdBurst under the Go scheduler"],
+    "jobs": [_sim("TestC01", 1500, 40000),
+             {"engine": "unit", "test": "TestC01ColdBurst", "quick": {"shards": 8, "checks": 12, "timeout": 400, "shrinktime": "5s"}, "thorough": {"shards": 16, "checks": 400, "timeout": 3400, "shrinktime": "20s"}}],
 }
 PROPS["C02"] = {
     "level": "exploration",
